@@ -457,7 +457,7 @@ def generate(ctx, shard=0, nshards=1):
         for T in [x / 4.0 for x in range(-80, 81)]:
             obliquity(ctx, jd(T))
 
-    n = ctx.n(40000, 3000000) // nshards
+    n = ctx.n(40000, 2000000) // nshards
     for i in range(n):
         lon, lat, k = rand_dir(rng)
         if hot_lat and rng.random() < 0.25:
